@@ -8,6 +8,7 @@ from .. import bits as B_
 from ..astutil import dotted, method_call
 from ..cfg import cfg_of, fact_key, implied, norm, walk_own
 from ..consteval import UNKNOWN, Scope, fold, fold_in
+from ..flow import leaves_for_legal_value
 from ..mutate import B, M
 from ..symexec import Explorer
 from ..symexpr import canon, _fmt
@@ -441,6 +442,11 @@ def check(ctx):
         upn = [n for n, c in gst.find(lambda q: method_call(q, '_update_header'))]
         okc = len(stn) == 1 and len(upn) >= 1 and all(gst.dominates(stn[0], u) for u in upn) and ('n', upn[-1].id) in (gst.dom().get(('n', gst.exit.id)) or ())
         ctx.inst('R4', f, 'setter-updates-header', okc, '%s must store the value and THEN refresh the cached header byte (the drivers transmit pk.header, not get_header())' % setter)
+        # every value of the header field is legal: a range check in the setter must not turn one away (port 15 is LINKCTRL)
+        legal = range(16) if setter == '_set_port' else range(4)
+        bad = leaves_for_legal_value(f, f.params[1], legal)
+        ctx.inst('R4', f, 'setter-takes-every-legal-value', not bad, '%s refuses %s (line %s): every port 0..15 / channel 0..3 has a header encoding' %
+                 (setter, bad[0][1] if bad else None, bad[0][0].line if bad else None))
     props = {k: norm(v) for k, v in pkc.consts.items()}
     ctx.inst('R4', (ST, 'CRTPPacket'), 'properties', props.get('port') == 'property(_get_port, _set_port)' and
              props.get('channel') == 'property(_get_channel, _set_channel)', 'port/channel properties: %s' % {k: props.get(k) for k in ('port', 'channel')})
